@@ -14,6 +14,7 @@ anywhere-read-inside-adapter, window-beyond-read), two classes found while this 
 (regular-partial-overlap-indel-window: regular 3'/5'/rightmost adapters with >= 2 allowed errors, found by an adversarial
 placement of insertions; nul-in-read-vs-n-wildcard), and C07/other for anything not yet understood."""
 import itertools
+import json
 
 import gens
 from core import Failure, Diff, correspond, hx, bits
@@ -98,12 +99,13 @@ def poskmers_cases(ctx, n):
         rate = rng.choice(gens.RATES + [0.05, 0.99, 1.0, 1.5] if rng.random() < 0.9 else [rng.random()])
         mo = rng.choice([rng.randint(0, 8), rng.randint(1, m), m, m + 2])
         b, f, i = rng.random() < 0.6, rng.random() < 0.6, rng.random() < 0.6
+        ind = rng.random() < 0.5
         try:
-            out = show_entries(create_positions_and_kmers(seq, mo, rate, b, f, i))
+            out = show_entries(create_positions_and_kmers(seq, mo, rate, b, f, i, ind))
         except NotImplementedError:
             out = "error:not-implemented"
-        cases.append((f"poskmers {hx(seq)} {mo} {bits(rate)} {int(b)} {int(f)} {int(i)}", out))
-        ctx.count(f"poskmers:back={int(b)},front={int(f)},internal={int(i)}")
+        cases.append((f"poskmers {hx(seq)} {mo} {bits(rate)} {int(b)} {int(f)} {int(i)} {int(ind)}", out))
+        ctx.count(f"poskmers:back={int(b)},front={int(f)},internal={int(i)},indels={int(ind)}")
     for c in cases[:2]:
         ctx.sample(dict(op_line=c[0], impl=c[1]))
     correspond(ctx, "poskmers", cases)
@@ -232,15 +234,9 @@ def gen_read(rng, cfg, a):
 
 # ------------------------------------------------------------------------------------------------ windows behind the read
 
-def window_status(pk, n):
-    """(exceeding front windows, can the bytes behind the terminating NUL hold a whole k-mer?)"""
-    exceeding = [(s, e, ks) for s, e, ks in pk if e is not None and e > n and s <= n]
-    garbage = any(e - (n + 1) >= min(len(k) for k in ks) for s, e, ks in exceeding if ks)
-    return exceeding, garbage
-
-
 def heap_demo():
-    """Same read content, different verdicts: the window of a 5' adapter reaches into neighbouring heap objects."""
+    """Regression test for d940092 (positive `stop` not clamped): the same read content must get the same verdict whatever
+    lies next to it on the heap. Before the fix the window of a 5' adapter reached into neighbouring string objects."""
     import random
     from cutadapt.adapters import FrontAdapter
     rng = random.Random(1)
@@ -265,7 +261,26 @@ def heap_demo():
         vs = [a.kmer_finder.kmers_present(r) for r in objs[0::2]]
         out[label] = dict(true=sum(vs), false=len(vs) - sum(vs))
     return dict(adapter="FrontAdapter(%r, max_errors=0.1, min_overlap=3)" % ad, read=read, window=list(big[0][:2]),
-                kmer=kmer, verdicts=out)
+                kmer=kmer, verdicts=out, cfg=dict(ty="front", seq=ad, max_errors=0.1, min_overlap=3, read_wildcards=False,
+                                                  adapter_wildcards=True, indels=True, force_anywhere=False))
+
+
+def beyond_check(ctx):
+    """(iii) window-beyond-read: the verdict for a read without any k-mer must be False independently of the heap"""
+    demo = heap_demo()
+    if demo is None:
+        ctx.notes.append("heap demonstration not applicable (no long 5' window)")
+        return
+    ctx.evaluations += 800
+    trues = sum(v["true"] for v in demo["verdicts"].values())
+    ctx.count("heap-neighbour-probes", 800)
+    if trues:
+        ctx.failures.append(Failure(
+            SIG_BEYOND,
+            "kmers_present gives different verdicts for equal reads: the 5' window reaches behind the read, the verdict depends on "
+            "memory the program does not own", dict(cfg=demo["cfg"], read=demo["read"]),
+            got=json.dumps(demo["verdicts"]), expected="False for every copy of the read",
+            extra=dict(heap_dependence_demo=demo)))
 
 
 # ------------------------------------------------------------------------------------------------ oracle + kmers_present
@@ -300,8 +315,13 @@ def kind_line(cfg):
 
 class State:
     def __init__(self):
-        self.present, self.lower, self.kinds = [], [], []
-        self.beyond_reported = False
+        self.present, self.kinds, self.pending = [], [], []
+
+
+def safedomain_line(cfg, read):
+    return (f"safedomain {cfg['ty']} {hx(cfg['seq'])} {bits(cfg['max_errors'])} {cfg['min_overlap']} "
+            f"{int(cfg['read_wildcards'])} {int(cfg['adapter_wildcards'])} {int(cfg['indels'])} {hx(read)} "
+            f"{int(bool(cfg.get('force_anywhere')))}")
 
 
 def one_read(ctx, st, cfg, real, mock, read, correspond_present=True):
@@ -318,13 +338,14 @@ def one_read(ctx, st, cfg, real, mock, read, correspond_present=True):
             ctx.nontriv(("M", cfg["ty"], cfg["seq"], cfg["max_errors"], cfg["min_overlap"], cfg["indels"], read))
     if sr != sm:
         sig = classify(cfg, real, read, mt_mock) if mt_mock is not None else SIG_OTHER
-        ctx.count("lost-match:" + sig)
-        ctx.failures.append(Failure(sig, "the match found by the aligner alone is dropped by the k-mer prefilter"
-                                    if mt_real is None else "prefilter changes the reported match",
-                                    dict(cfg=cfg, read=read), got=sr, expected=sm,
-                                    extra=dict(adapter=repr(real),
-                                               positions_and_kmers=show_entries(real.kmer_finder.positions_and_kmers)
-                                               if not is_mock else "mock")))
+        fl = Failure(sig, "the match found by the aligner alone is dropped by the k-mer prefilter"
+                     if mt_real is None else "prefilter changes the reported match",
+                     dict(cfg=cfg, read=read), got=sr, expected=sm,
+                     extra=dict(adapter=repr(real),
+                                positions_and_kmers=show_entries(real.kmer_finder.positions_and_kmers)
+                                if not is_mock else "mock"))
+        # cross-check with the theorem: a lost match inside `safeDomain` contradicts `prefilter_safe_partial`
+        st.pending.append((safedomain_line(cfg, read), fl))
     if is_mock or not correspond_present:
         return
     seq_in = read[::-1] if cfg["ty"] == "rightmost" else read
@@ -332,47 +353,32 @@ def one_read(ctx, st, cfg, real, mock, read, correspond_present=True):
     if not verdict:
         ctx.count("prefilter-says-no")
         ctx.nontriv(("F", cfg["ty"], cfg["seq"], cfg["max_errors"], cfg["min_overlap"], cfg["indels"], read))
-    exceeding, garbage = window_status(real.kmer_finder.positions_and_kmers, len(seq_in))
-    if not exceeding:
-        st.present.append((present_line(cfg, seq_in, "-"), str(verdict)))
-        return
-    ctx.count("window-beyond-read")
-    if not st.beyond_reported:
-        st.beyond_reported = True
-        s, e, ks = max(exceeding, key=lambda t: t[1])
-        demo = None
-        try:
-            demo = heap_demo()
-        except Exception as ex:  # the demonstration is a bonus, the finding does not depend on it
-            demo = dict(error=repr(ex))
-        ctx.failures.append(Failure(
-            SIG_BEYOND,
-            f"kmers_present searches the window [0, {e}) of a sequence of length {len(seq_in)}: it reads {e - len(seq_in)} bytes "
-            "behind the string, so the verdict depends on memory the program does not own",
-            dict(cfg=cfg, read=read), got=f"window stop {e} > len {len(seq_in)}", expected="stop clamped to the sequence length",
-            extra=dict(adapter=repr(real), heap_dependence_demo=demo)))
-    if not garbage:
-        # behind the read only the terminating NUL and fewer bytes than the shortest k-mer: the verdict is determined
-        ctx.count("window-beyond-read:verdict-determined-by-read")
-        st.present.append((present_line(cfg, seq_in, "00"), str(verdict)))
-    else:
-        # a k-mer fits behind the NUL: excluded from the correspondence; only "found inside the read => True" is checked
-        ctx.count("kmerspresent:excluded-window-beyond-read")
-        st.lower.append((present_line(cfg, seq_in, "00"), verdict))
+    if any(e is not None and e > len(seq_in) for s, e, ks in real.kmer_finder.positions_and_kmers):
+        ctx.count("5'-window-longer-than-read")
+    st.present.append((present_line(cfg, seq_in, "-"), str(verdict)))
 
 
 def flush(ctx, st):
     from core import run_driver
     correspond(ctx, "finderkind", st.kinds)
     correspond(ctx, "kmerspresent", st.present)
-    if st.lower:
-        outs = run_driver([l for l, _ in st.lower])
-        for (line, verdict), model in zip(st.lower, outs):
-            # model with zeros behind the read says True => the k-mer is inside the read => the code must say True
-            if model not in ("True", "False") or (model == "True" and not verdict):
-                ctx.diffs.append(Diff("kmerspresent-lower-bound", line, str(verdict), model))
-        ctx.corr_ops["kmerspresent-lower-bound"] = ctx.corr_ops.get("kmerspresent-lower-bound", 0) + len(st.lower)
-    st.present, st.lower, st.kinds = [], [], []
+    if st.pending:
+        outs = run_driver([l for l, _ in st.pending])
+        for (line, fl), dom in zip(st.pending, outs):
+            if dom == "True":
+                fl.extra["safeDomain"] = True
+                fl.extra["signature_by_shape"] = fl.signature
+                fl.what += " — although the pair lies in safeDomain, where prefilter_safe_partial proves equality"
+                fl.signature = SIG_OTHER
+            elif dom != "False":
+                fl.extra["safeDomain"] = dom
+                fl.signature = SIG_OTHER
+            else:
+                fl.extra["safeDomain"] = False
+            ctx.count("lost-match:" + fl.signature)
+            ctx.failures.append(fl)
+        ctx.corr_ops["safedomain-of-failures"] = ctx.corr_ops.get("safedomain-of-failures", 0) + len(st.pending)
+    st.present, st.kinds, st.pending = [], [], []
 
 
 def random_cases(ctx, ncfg, reads_per_cfg):
@@ -406,7 +412,6 @@ def small_scope(ctx, max_adapter, max_read, rates, alphabet="ACG", sample_every=
     the oracle on every pair, the kmers_present correspondence on every `sample_every`-th"""
     reads = ["".join(r) for n in range(0, max_read + 1) for r in itertools.product(alphabet, repeat=n)]
     st = State()
-    st.beyond_reported = True     # reported by the random part
     k = 0
     for m in range(1, max_adapter + 1):
         for seq in itertools.product(alphabet, repeat=m):
@@ -459,6 +464,7 @@ def run(ctx):
                 "adapters up to 170 (several masks per entry, words > 64 -> mock finder), reads = random / mutated copies at every offset / "
                 "indel-mutated copies at the anchored end / pieces of the adapter / reads shorter than the 5' windows / NUL bytes at N wildcards; "
                 "non-trivial = distinct case in which the prefilter rejects the read, or a match with >= 1 error passes a real (non-mock) finder")
+    beyond_check(ctx)
     chunk_cases(ctx, ctx.scale(3000, 60000))
     minimize_cases(ctx, ctx.scale(3000, 60000))
     poskmers_cases(ctx, ctx.scale(4000, 100000))
@@ -474,9 +480,9 @@ def extended_search(ctx):
 
 
 def extra_coverage(ctx):
-    return dict(expected_failure_classes=[SIG_INDEL, SIG_INSIDE, SIG_BEYOND, SIG_REGULAR, SIG_NUL],
-                note="kmers_present cases in which a whole k-mer fits behind the read's terminating NUL inside an unclamped window are "
-                     "excluded from the exact correspondence (verdict depends on foreign memory) and only checked one-sidedly")
+    return dict(known_finding_classes=[SIG_INSIDE, SIG_NUL], fixed_classes_kept_as_regression_tests=[SIG_INDEL, SIG_BEYOND, SIG_REGULAR],
+                note="every lost match is cross-checked against Kmer.safeDomain (driver op safedomain): a lost match inside the domain of "
+                     "prefilter_safe_partial is reported as C07/other")
 
 
 def replay(ctx, rp):
@@ -492,8 +498,7 @@ def replay(ctx, rp):
     print("with prefilter:", sr, "| aligner alone:", sm)
     bad = sr != sm
     if fl.get("signature") == SIG_BEYOND:
-        seq_in = read[::-1] if cfg["ty"] == "rightmost" else read
-        exceeding, _ = window_status(getattr(real.kmer_finder, "positions_and_kmers", []), len(seq_in))
-        print("windows reaching behind the read:", [(s, e) for s, e, _ in exceeding])
-        bad = bad or bool(exceeding)
+        demo = heap_demo()
+        print("verdicts for equal reads next to different heap neighbours:", demo and demo["verdicts"])
+        bad = bad or bool(demo and sum(v["true"] for v in demo["verdicts"].values()))
     return 1 if bad else 0
